@@ -586,6 +586,7 @@ func verifLemmaProgress(g *Graph, t *Task) {}
 //@   requires [ex] lk == 2
 //@   requires [updates] updates != nil
 //@   ensures [fail-unchanged] ret != nil ==> logv == old(logv) && commits == old(commits)
+//@   ensures [fail-appended] ret != nil ==> appended == old(appended)
 //@   ensures [one-commit] commits <= old(commits) + 1
 //@   ensures [live-only] ret == nil ==> has(graph.Tasks, id) && !has(graph.Tombstones, id) && graph.Tasks[id] == task
 //@   ensures [transition] ret == nil && !task.IsEpic ==>
@@ -619,6 +620,7 @@ func verifLemmaProgress(g *Graph, t *Task) {}
 //@   modifies map[string]bool at visited
 //@ loop 0 range graph.Deps[start]
 //@   invariant [start] vis(visited, start) && start != target
+//@   invariant [variant] !old(vis(visited, start))
 //@   invariant [target-out] !vis(visited, target)
 //@   invariant [mono] forall n string :: old(vis(visited, n)) ==> vis(visited, n)
 //@   invariant [deps-done] forall m string :: visited(m) ==> vis(visited, m)
@@ -820,6 +822,8 @@ func verifLemmaProgress(g *Graph, t *Task) {}
 //@        dec_ResultEvent(content(appended[0].Data)).MtimeAtAttach == evidence.MtimeAtAttach &&
 //@        dec_ResultEvent(content(appended[0].Data)).GitCommitAtAttach == evidence.GitCommitAtAttach &&
 //@        dec_ResultEvent(content(appended[0].Data)).Summary == trimSpace(summary)
+//@   ensures [fail-appended] ret != nil ==> appended == old(appended)
+//@   ensures [event-allocated] ret == nil ==> allocated(appended)
 //@   modifies ghost logv, ghost commits, ghost appended, ghost logWrites, ghost tailTorn, ghost tmpStage, ghost readEpoch
 //@ func writeResultEvent
 //@   requires [unlocked] lk == 0
@@ -829,6 +833,8 @@ func verifLemmaProgress(g *Graph, t *Task) {}
 //@   ensures [one-commit] commits <= old(commits) + 1
 //@   ensures [committed] ret == nil ==> commits == old(commits) + 1 && logv == old(logv) + 1
 //@   ensures [quiet] stdoutJSON == old(stdoutJSON) && stdoutText == old(stdoutText)
+//@   ensures [result-only] ret == nil ==> len(appended) == 1 && appended[0].Type == "result" && allocated(appended)
+//@   ensures [fail-appended] ret != nil ==> appended == old(appended)
 //@   modifies ghost lk, ghost epoch, ghost blocking, ghost fsWrites, ghost fsExists, ghost logv, ghost commits, ghost appended, ghost logWrites, ghost tailTorn, ghost tmpStage, ghost readEpoch
 
 //@ func applySetUpdates
@@ -841,6 +847,7 @@ func verifLemmaProgress(g *Graph, t *Task) {}
 //@   ensures [json-quiet] quiet ==> stdoutText == old(stdoutText)
 //@   ensures [no-json] stdoutJSON == old(stdoutJSON)
 //@   ensures [version-tracks-commits] logv - old(logv) == commits - old(commits) && commits >= old(commits)
+//@   ensures [reject-touches-result-only] ret != nil && commits != old(commits) ==> len(appended) == 1 && appended[0].Type == "result"
 //@   modifies ghost lk, ghost epoch, ghost blocking, ghost fsWrites, ghost fsExists, ghost logv, ghost commits, ghost appended, ghost logWrites, ghost tailTorn, ghost tmpStage, ghost readEpoch
 //@   modifies ghost stdoutText, map[string]string at updates
 
